@@ -14,7 +14,7 @@ trace.  In the model a trace is visible as a `traced` event and nowhere else.  W
   every-state versions); never-adopting programs `C14_program_without_adoptions_never_traces`,
   `C14_program_without_adoptions_has_empty_tables`, `C14_noAdopt_every_state`;
 * examples: a 22-operation never-adopting history and an adopting history with a bystander.
-Not proved: "no heap allocation" on the real allocator is observed by the harness (channel T /
+Not proved: "no heap allocation" on the real allocator is observed by the harness (channel T0 /
 oracle O14).
 -/
 namespace Cactus
